@@ -40,28 +40,18 @@ def lean_bool(b):
     return "true" if b else "false"
 
 
+def available():
+    """Names of all extractors (tools/extract/<name>.py -> "<Name>")."""
+    here = os.path.dirname(os.path.abspath(__file__))
+    return sorted(f[:-3].capitalize() for f in os.listdir(here) if f.endswith(".py") and not f.startswith("_"))
+
+
 def run_all(ctx, which):
     """Run the extractors named in `which`; write the Lean files; record lost anchors."""
-    from . import registry as x_registry
-    table = {"Registry": x_registry}
-    try:
-        from . import kernels as x_kernels
-        table["Kernels"] = x_kernels
-    except ImportError:
-        pass
-    try:
-        from . import notation as x_notation
-        table["Notation"] = x_notation
-    except ImportError:
-        pass
-    try:
-        from . import facts as x_facts
-        table["Facts"] = x_facts
-    except ImportError:
-        pass
+    import importlib
     facts = {}
     for name in which:
-        mod = table[name]
+        mod = importlib.import_module(f"extract.{name.lower()}")
         try:
             text, f, lost = mod.extract()
         except Exception as e:  # extractor could not understand the source at all
